@@ -166,7 +166,7 @@ pub fn parse_header(b: &[u8]) -> Result<Hdr, String> {
     if h.backing_file_offset != 0 {
         let s = h.backing_file_offset;
         let l = h.backing_file_size as u64;
-        if l > 1023 || s + l > cs || s + l > b.len() as u64 {
+        if l > 1023 || s.saturating_add(l) > cs || s.saturating_add(l) > b.len() as u64 {
             return Err("backing file name out of range".into());
         }
         h.backing = Some(b[s as usize..(s + l) as usize].to_vec());
@@ -187,6 +187,20 @@ pub fn unsupported_reason(h: &Hdr) -> Option<String> {
     }
     if h.nb_snapshots != 0 {
         return Some("snapshots".into());
+    }
+    None
+}
+
+/// Features the properties require to be refused (C14)
+pub fn refusal_required(h: &Hdr) -> Option<String> {
+    if h.crypt_method != 0 {
+        return Some(format!("crypt_method {}", h.crypt_method));
+    }
+    if h.incompatible != 0 {
+        return Some(format!("incompatible features {:#x}", h.incompatible));
+    }
+    if h.compression_type != 0 {
+        return Some("non-deflate compression".into());
     }
     None
 }
